@@ -182,4 +182,14 @@ theorem inScope_single (t : Tree) (b : Nat × Nat) (hb : b ∈ namespacesInScope
   · simp only [basePrefixes, List.mem_singleton] at h
     right; rw [h]
 
+/-- … more precisely. -/
+theorem inScope_single' (t : Tree) (b : Nat × Nat) (hb : b ∈ namespacesInScopeChain [t]) :
+    b ∈ t.nsDecls ∨ b = (Env.xmlPrefix, Env.xmlNamespace) := by
+  unfold namespacesInScopeChain at hb
+  simp only [traverseChain, List.append_nil, List.mem_append, List.mem_filter] at hb
+  rcases hb with h | ⟨h, _⟩
+  · exact Or.inl (traverseDecls_out_sub t.nsDecls [] b h)
+  · simp only [basePrefixes, List.mem_singleton] at h
+    exact Or.inr h
+
 end XotModel
